@@ -184,7 +184,7 @@ def rule_X1_dot(F, R):
                     p = unwrap_pat(a['pat'])
                     if p['k'] == 'Variant' and canon(p['adt']) == BDD:
                         got[p['variant']] = [x['value'] for x in walk(a['body']) if x['k'] == 'Literal' and x.get('lit') == 'Str' and x['value'].startswith('n_')]
-        ok = got.get('True') == ['n_true'] and got.get('False') == ['n_false']
+        ok = set(got.get('True') or ()) == {'n_true'} and set(got.get('False') or ()) == {'n_false'}
     R.count('X1:leaf-ids'); R.obligation(ok, 'X1 node_id')
     if not ok: R.violation('rsbdd::bdd_io::BDDGraph / X1 / node_id', 'X1', 'leaf ids are not n_true / n_false on the matching variants')
 
@@ -304,6 +304,57 @@ def vector_nonempty(e, env):
     if (news and not arrays) or (arrays and all(len(x['fields']) == 0 for x in arrays)): return False
     raise PredUndec('cannot tell whether %s is empty' % pp(e)[:50])
 
+def dot_node_collector(lib):
+    """the function of BDDGraph that lists the nodes of the diagram: `nodes_recursive` on the pinned tree; after a rewrite, the one function
+    of the impl (other than edges_recursive) that matches on the diagram with a Choice arm first and calls itself on both children"""
+    G = 'rsbdd::bdd_io::BDDGraph::'
+    t = lib.ithir.get(G + 'nodes_recursive')
+    if t is not None: return G + 'nodes_recursive', t
+    import facts as _facts
+    if not _facts.baseline_private(G + 'nodes_recursive'): return None, None
+    cands = []
+    for name, t in lib.ithir.items():
+        if not name.startswith(G) or '{closure' in name or name == G + 'edges_recursive' or name in _facts.baseline_fns(): continue
+        for m in walk(t['body']):
+            if m['k'] == 'Match' and m['arms']:
+                p0 = unwrap_pat(m['arms'][0]['pat'])
+                if p0['k'] == 'Variant' and canon(p0.get('adt', '')) == BDD and p0['variant'] == 'Choice' and \
+                        len([x for x in walk(m['arms'][0]['body']) if x['k'] == 'Call' and callee_name(x) == name]) >= 2:
+                    cands.append((name, t)); break
+    return cands[0] if len(cands) == 1 else (None, None)
+
+def pushes_node(e, env):
+    """does this arm put the node into the list it is given?  `if seen.insert(node) { ordered.push(node) }` (first encounter), under
+    Boolean conditions on the filter; PredUndec for anything else"""
+    while e['k'] in ('Use', 'NeverToAny', 'Borrow', 'Deref'): e = e.get('source') or e.get('arg')
+    if e['k'] == 'Block':
+        env = dict(env); hit = False
+        for st in e['stmts']:
+            if st['k'] == 'Let' and st.get('init') is not None:
+                q = unwrap_pat(st['pat'])
+                if q['k'] == 'Binding':
+                    try: env[q['var']] = ('bool', eval_pred(st['init'], env))
+                    except PredUndec: pass
+            elif st['k'] == 'Expr': hit = pushes_node(st['expr'], env) or hit
+        if e.get('expr') is not None: hit = pushes_node(e['expr'], env) or hit
+        return hit
+    if e['k'] == 'If' and e['cond']['k'] != 'Let':
+        c = strip(e['cond'])
+        if c['k'] == 'Call' and (callee_name(c) or '').endswith('Set::insert'): cv = True          # the first time the node is met
+        else: cv = eval_pred(e['cond'], env)
+        if cv: return pushes_node(e['then'], env)
+        return pushes_node(e['else'], env) if e.get('else') is not None else False
+    if e['k'] == 'Match' and e.get('source') == 'Normal':
+        v = eval_val(e['scrutinee'], env)
+        for a in e['arms']:
+            env2 = dict(env)
+            if pat_matches(a['pat'], v, env2) and (a.get('guard') is None or eval_pred(a['guard'], env2)): return pushes_node(a['body'], env2)
+        raise PredUndec('no arm applies')
+    if e['k'] == 'Call' and callee_name(e) == 'std::vec::Vec::push': return True
+    if e['k'] == 'Tuple' and not e['fields']: return False
+    if any(x['k'] == 'Call' and callee_name(x) == 'std::vec::Vec::push' for x in walk(e)): raise PredUndec('push under %s' % e['k'])
+    return False
+
 def leaf_declared(t, leaf, filt):
     """nodes_recursive on a leaf: is the leaf put into the node list under this filter?  Evaluates the arms after the Choice arm."""
     for m in walk(t['body']):
@@ -313,6 +364,9 @@ def leaf_declared(t, leaf, filt):
         for a in m['arms'][1:]:
             env = {'self.filter': ('tte', filt)}
             if pat_matches(a['pat'], ('bdd', leaf), env) and (a.get('guard') is None or eval_pred(a['guard'], env)):
+                if any(x['k'] == 'Call' and callee_name(x) == 'std::vec::Vec::push' for x in walk(a['body'])) or strip(a['body'])['k'] in ('Tuple',) or \
+                        (strip(a['body'])['k'] == 'Block' and not strip(a['body'])['stmts'] and strip(a['body']).get('expr') is None):
+                    return pushes_node(a['body'], env)          # the walker form: the node is appended to a list passed in
                 return vector_nonempty(a['body'], env)
         raise PredUndec('no arm of nodes_recursive applies to a %s leaf' % leaf)
     raise PredUndec('the match on the diagram was not found')
@@ -417,26 +471,67 @@ def _x2_table(F, R, binc, FILTERS):
         R.count('X2:vars-printer-arms'); R.obligation(ok, 'X2 -v')
         if not ok: R.violation('%s / X2 / printing arms' % fn, 'X2', '-v must print exactly at the True leaf; printing arms: %s' % printing)
 
+class _SkipEntry(Exception): pass
+
 def _vars_line_entries(binc, arm_body):
     """what the -v line shows for one table entry, per entry value: {'True': [..], 'Any': [..], 'False': [..]} with items 'name' / 'name*'.
-    Reads the one place that walks the entries: a `for` loop pushing into the list that is joined, or a `filter_map` closure."""
+    Reads the one place that walks the entries: a `for` loop pushing into the list that is joined (or appending to the line directly,
+    separators under a first-element flag), or a `filter_map` closure."""
     def item_kind(e):
         star = any(x['k'] == 'Literal' and ((x.get('lit') == 'Str' and '*' in x['value']) or (x.get('lit') == 'ByteStr' and b'*' in bytes(x['value']))) for x in walk(e))
         other = [x['value'] for x in walk(e) if x['k'] == 'Literal' and x.get('lit') == 'Str' and x['value'] not in ('*', '')]
         if other: raise PredUndec('the shown name is decorated with %r' % other[0])
         return 'name*' if star else 'name'
+    def sval(e, env):
+        """a piece of text chosen by the entry value: `if *v == True { "" } else if *v == Any { "*" } else { continue }`"""
+        while e['k'] in ('Use', 'NeverToAny', 'Borrow', 'Deref'): e = e.get('source') or e.get('arg')
+        if e['k'] == 'Literal' and e.get('lit') == 'Str': return e['value']
+        if e['k'] == 'Block':
+            if e['stmts'] and all(st['k'] == 'Expr' for st in e['stmts']) and e.get('expr') is None and len(e['stmts']) == 1: return sval(e['stmts'][0]['expr'], env)
+            if not e['stmts'] and e.get('expr') is not None: return sval(e['expr'], env)
+        if e['k'] == 'Continue': raise _SkipEntry()
+        if e['k'] == 'If' and e['cond']['k'] != 'Let' and e.get('else') is not None:
+            return sval(e['then'] if eval_pred(e['cond'], env) else e['else'], env)
+        if e['k'] == 'Match' and e.get('source') in (None, 'Normal'):
+            v = eval_val(e['scrutinee'], env)
+            for a in e['arms']:
+                env2 = dict(env)
+                if pat_matches(a['pat'], v, env2) and (a.get('guard') is None or eval_pred(a['guard'], env2)): return sval(a['body'], env2)
+        raise PredUndec('text piece %s' % pp(e)[:40])
+    def piece(x, env):
+        x0 = x
+        while x['k'] in ('Use', 'NeverToAny', 'Borrow', 'Deref'): x = x.get('source') or x.get('arg')
+        if x['k'] == 'Literal' and x.get('lit') == 'Str': return ('lit', x['value'])
+        if x['k'] in ('VarRef', 'UpvarRef') and isinstance(env.get(x['var']), tuple) and env[x['var']][0] == 'str': return ('lit', env[x['var']][1])
+        return ('item', item_kind(x0))
+    def is_sep(p): return p[0] == 'lit' and p[1].strip() in (',', '')
     def run(e, env, out):
         while e['k'] in ('Use', 'NeverToAny'): e = e['source']
         k = e['k']
         if k == 'Block':
             for st in e['stmts']:
                 if st['k'] == 'Expr': run(st['expr'], env, out)
-                elif st['k'] == 'Let' and st.get('init') is not None and any(x['k'] == 'Call' and callee_name(x) == 'std::vec::Vec::push' for x in walk(st['init'])): raise PredUndec('push inside a let')
+                elif st['k'] == 'Let' and st.get('init') is not None:
+                    if any(x['k'] == 'Call' and (callee_name(x) or '').split('::')[-1] in ('push', 'push_str') for x in walk(st['init'])): raise PredUndec('push inside a let')
+                    q = unwrap_pat(st['pat'])
+                    if q['k'] == 'Binding' and st['init'].get('exp') is None:
+                        try: env[q['var']] = ('str', sval(st['init'], env))
+                        except PredUndec: pass
             if e.get('expr') is not None: run(e['expr'], env, out)
             return
+        if k == 'Continue': raise _SkipEntry()
+        if k in ('Assign', 'AssignOp'): return
         if k == 'If':
             if e['cond']['k'] == 'Let': raise PredUndec('if-let in the entry walk')
-            if eval_pred(e['cond'], env): run(e['then'], env, out)
+            try: c = eval_pred(e['cond'], env)
+            except PredUndec:
+                # a condition on something other than the entry (a first-element flag): both branches may only add separators
+                for br in (e['then'], e.get('else')):
+                    if br is None: continue
+                    o2 = []; run(br, dict(env), o2)
+                    if not all(is_sep(p) for p in o2): raise
+                return
+            if c: run(e['then'], env, out)
             elif e.get('else') is not None: run(e['else'], env, out)
             return
         if k == 'Match' and e.get('source') in (None, 'Normal'):
@@ -447,13 +542,15 @@ def _vars_line_entries(binc, arm_body):
                     run(a['body'], env2, out); return
             raise PredUndec('no arm applies')
         if k == 'Call' and callee_name(e) == 'std::vec::Vec::push':
-            out.append(item_kind(e['args'][1])); return
+            out.append(('item', item_kind(e['args'][1]))); return
+        if k == 'Call' and callee_name(e) in ('std::string::String::push_str', 'std::string::String::push'):
+            out.append(piece(e['args'][1], env)); return
         if k == 'Adt' and canon(e['adt']) == 'std::option::Option':
-            if e['variant'] == 'Some': out.append(item_kind(e['fields'][0]['expr']))
+            if e['variant'] == 'Some': out.append(('item', item_kind(e['fields'][0]['expr'])))
             return
         if k in ('Tuple',) and not e['fields']: return
         if k == 'Match' and 'TryDesugar' in str(e.get('source')): raise PredUndec('`?` inside the entry walk')
-        if any(x['k'] == 'Call' and callee_name(x) == 'std::vec::Vec::push' for x in walk(e)): raise PredUndec('push under %s' % k)
+        if any(x['k'] == 'Call' and (callee_name(x) or '').split('::')[-1] in ('push', 'push_str') for x in walk(e)): raise PredUndec('push under %s' % k)
     # the walk over the entries
     cands = []
     for x in walk(arm_body):
@@ -473,14 +570,27 @@ def _vars_line_entries(binc, arm_body):
     res = {}
     for v in ('True', 'Any', 'False'):
         out = []
-        run(body, {b_: ('tte', v) for b_ in binds}, out)
-        res[v] = out
+        try: run(body, {b_: ('tte', v) for b_ in binds}, out)
+        except _SkipEntry: out = [p for p in out if False]
+        out = [p for p in out if not is_sep(p)]
+        items = []
+        cur = None
+        for p in out:
+            if p[0] == 'item':
+                if cur is not None: items.append(cur)
+                cur = p[1]
+            elif cur is None: raise PredUndec('text %r before the name' % p[1])
+            elif p[1] == '*' and cur == 'name': cur = 'name*'
+            elif p[1] == '': pass
+            else: raise PredUndec('the shown name is decorated with %r' % p[1])
+        if cur is not None: items.append(cur)
+        res[v] = items
     return res
 
 def _x2_dot(F, R, lib, FILTERS):
     # (c) dot: declared leaf <=> same predicate; edge into a leaf emitted <=> that leaf declared
     G = 'rsbdd::bdd_io::BDDGraph::'
-    t = lib.ithir.get(G + 'nodes_recursive')
+    _nm, t = dot_node_collector(lib)
     declared = {}
     if t is None:
         R.violation(G + 'nodes_recursive / X2 / anchor', 'UNDECIDABLE', 'nodes_recursive not found')
@@ -593,7 +703,7 @@ def rule_X3(F, R):
     if t:
         okc = any(sorts_ascending_by_id(e, lib) for e in walk(t['body']) if e['k'] == 'Call' and 'sort' in (callee_name(e) or '').split('::')[-1])
         pushes = [e for e in walk(t['body']) if e['k'] == 'Call' and callee_name(e) == 'std::vec::Vec::push' and strip(e['args'][0]).get('field_name') == 'free_vars']
-        ok = okc and len(pushes) == 1
+        ok = okc and (len(pushes) == 1 or (not pushes and free_vars_by_chain(lib, t, PF)))
     R.count('X3:ordering-of-free_vars'); R.obligation(ok, 'X3 sorted')
     if not ok: R.violation(PF + 'new_with_env / X3 / free_vars order', 'X3', 'vars is not sorted ascending by id before free_vars is filled in that order (header order and column look-up rely on it)')
     # (3) sequences in main and the printers
@@ -792,6 +902,77 @@ def table_write_domain(lib, tbl):
             if b is not None and b.get('field_name') == tbl and ix.get('field_name') == 'id': return 'id'
     return 'unknown'
 
+def free_vars_by_chain(lib, t, PF):
+    """free_vars filled by an iterator chain instead of a loop: the elements of `vars`, in order, kept exactly when var_is_free(whole
+    formula, v) holds - `vars.iter().filter(|v| var_is_free(..)).cloned().collect()`, or through a vector of flags computed by
+    `vars.iter().map(|v| var_is_free(..)).collect()` and zipped back on"""
+    def closure(e):
+        e = strip(e)
+        return lib.ithir.get(canon(e['def'])) if e['k'] == 'Closure' else None
+    def is_free_call(body, pvar):
+        b = body
+        while b['k'] in ('Use', 'NeverToAny', 'Borrow', 'Deref') or (b['k'] == 'Block' and not b['stmts'] and b.get('expr') is not None): b = b.get('source') or b.get('arg') or b.get('expr')
+        return b['k'] == 'Call' and callee_name(b) == PF + 'var_is_free' and strip(b['args'][1]).get('field_name') == 'bdd' and root_var(b['args'][2]) == pvar
+    flags = set()
+    for blk in walk(t['body']):
+        if blk['k'] != 'Block': continue
+        for st in blk['stmts']:
+            if st['k'] == 'Let' and st.get('init') is not None and unwrap_pat(st['pat'])['k'] == 'Binding':
+                i0 = strip(st['init'])
+                if i0['k'] == 'Call' and callee_decl(i0) == 'std::iter::Iterator::collect':
+                    m = strip(i0['args'][0])
+                    if m['k'] == 'Call' and callee_decl(m) == 'std::iter::Iterator::map' and len(m['args']) == 2:
+                        ct = closure(m['args'][1]); src = strip(m['args'][0])
+                        while src['k'] == 'Call' and src['args'] and (callee_name(src) or '').split('::')[-1] in ('iter', 'into_iter', 'deref'): src = strip(src['args'][0])
+                        if ct is not None and len(ct['params']) == 2 and src['k'] == 'Field' and src.get('field_name') == 'vars' and is_free_call(ct['body'], unwrap_pat(ct['params'][1]['pat']).get('var')):
+                            flags.add(unwrap_pat(st['pat'])['var'])
+    class Bad(Exception): pass
+    def apply(ct, el):
+        env = {}
+        def bind(p, v):
+            p = unwrap_pat(p)
+            if p['k'] == 'Binding': env[p['var']] = v
+            elif p['k'] == 'Leaf' and 'adt' not in p and v[0] == 'pair':
+                for sp in p['subs']: bind(sp['pat'], v[1 + sp['field']])
+            elif p['k'] != 'Wild': raise Bad()
+        bind(ct['params'][1]['pat'], el)
+        b = ct['body']
+        while b['k'] in ('Use', 'NeverToAny', 'Borrow', 'Deref') or (b['k'] == 'Block' and not b['stmts'] and b.get('expr') is not None) or \
+                (b['k'] == 'Call' and (callee_decl(b) or '') in ('std::clone::Clone::clone', 'std::ops::Deref::deref') and b['args']):
+            b = b.get('source') or b.get('arg') or b.get('expr') or b['args'][0]
+        if b['k'] in ('VarRef', 'UpvarRef') and b['var'] in env: return env[b['var']]
+        if b['k'] == 'Field' and strip(b['lhs'])['k'] in ('VarRef', 'UpvarRef') and env.get(strip(b['lhs'])['var'], ('',))[0] == 'pair': return env[strip(b['lhs'])['var']][1 + b['field']]
+        pv = unwrap_pat(ct['params'][1]['pat'])
+        if pv['k'] == 'Binding' and el == ('v',) and is_free_call(ct['body'], pv['var']): return ('flag',)
+        raise Bad()
+    filtered = [0]
+    def elems(e):
+        e = strip(e)
+        if e['k'] == 'Call':
+            d = callee_decl(e) or ''; c = (callee_name(e) or '').split('::')[-1]
+            if d in ('std::iter::Iterator::collect', 'std::iter::Iterator::cloned', 'std::iter::Iterator::copied', 'std::ops::Deref::deref', 'std::iter::IntoIterator::into_iter') or c in ('iter', 'into_iter'): return elems(e['args'][0])
+            if d == 'std::iter::Iterator::zip': return ('pair', elems(e['args'][0]), elems(e['args'][1]))
+            if d == 'std::iter::Iterator::filter':
+                el = elems(e['args'][0]); ct = closure(e['args'][1])
+                if ct is None or apply(ct, el) != ('flag',): raise Bad()
+                filtered[0] += 1
+                return el
+            if d == 'std::iter::Iterator::map':
+                ct = closure(e['args'][1])
+                if ct is None: raise Bad()
+                return apply(ct, elems(e['args'][0]))
+            raise Bad()
+        if e['k'] == 'Field' and e.get('field_name') == 'vars': return ('v',)
+        if e['k'] in ('VarRef', 'UpvarRef') and e['var'] in flags: return ('flag',)
+        raise Bad()
+    for e in walk(t['body']):
+        if e['k'] == 'Assign' and strip(e['lhs'])['k'] == 'Field' and strip(e['lhs']).get('field_name') == 'free_vars':
+            filtered[0] = 0
+            try:
+                if elems(e['rhs']) == ('v',) and filtered[0] == 1: return True
+            except Bad: pass
+    return False
+
 # ------------------------------------------------------------------------------------------------ X4 data flow in main
 def rule_X4(F, R, clauses=('parse', 'order', 'model', 'retain', 'export', 'vars')):
     binc, lib = F.bin(), F.lib()
@@ -886,6 +1067,20 @@ def rule_X4(F, R, clauses=('parse', 'order', 'model', 'retain', 'export', 'vars'
             want = ('optmap', ('field', ('args',), 'ordering'), ('bound', 0),
                     ('call', PF + 'extract_vars', (('call', 'rsbdd::parser::SymbolicBDD::tokenize', (('call', 'std::fs::File::open', (('bound', 0),)), ('none',))),)))
             ok = flow.alpha_eq(got, want)
+        if ok:
+            # ... and the library hands the ordering it is given to the tokenizer unchanged (ParsedFormula::new -> new_with_env -> tokenize)
+            for fn_, callee_, argi in ((PF + 'new', PF + 'new_with_env', 2), (PF + 'new_with_env', 'rsbdd::parser::SymbolicBDD::tokenize', 1)):
+                tl = lib.ithir.get(fn_)
+                if tl is None: ok = False; got = ('unknown', fn_ + ' not found'); break
+                pv = None
+                for p_ in tl['params']:
+                    if 'pat' in p_ and 'Option' in (p_['ty'].get('s') or '') and 'NamedSymbol' in (p_['ty'].get('s') or ''): pv = unwrap_pat(p_['pat']).get('var')
+                fl2 = flow.Flow(lib)
+                found2 = []
+                flow.scan(fl2, tl['body'], {}, lambda x, c_=callee_: x.get('k') == 'Call' and callee_name(x) == c_, found2)
+                if len(found2) != 1 or pv is None: ok = False; got = ('unknown', '%d call(s) of %s in %s' % (len(found2), callee_.split('::')[-1], fn_.split('::')[-1])); break
+                g2 = fl2.ev(found2[0][0]['args'][argi], found2[0][1])
+                if g2 != ('param', pv): ok = False; got = ('call', fn_.split('::')[-1] + ' passes', (g2,)); break
         R.count('X4:ordering-flow'); R.obligation(ok, 'X4 order')
         if not ok: R.violation('rsbdd::main / X4 / ordering flow', 'X4', 'the ordering argument of the parser must be the variables of the -o file in order of first appearance, '
                                'args.ordering.map(p => extract_vars(tokenize(open(p), None))); found %s' % (flow.show(got) if got is not None else '%d parser call(s)' % len(found)))
@@ -953,7 +1148,36 @@ def rule_X4(F, R, clauses=('parse', 'order', 'model', 'retain', 'export', 'vars'
                 v1 = dict(val); run_expr(e['then'], v1)
                 v2 = dict(val)
                 if e.get('else') is not None: run_expr(e['else'], v2)
+                def leaves_(b_):
+                    if b_ is None: return False
+                    for _ in range(8):
+                        if b_['k'] in ('Use', 'NeverToAny', 'Scope'): b_ = b_['source'] if 'source' in b_ else b_['value']
+                        elif b_['k'] == 'Block' and not b_['stmts'] and b_.get('expr') is not None: b_ = b_['expr']
+                        elif b_['k'] == 'Block' and len(b_['stmts']) == 1 and b_.get('expr') is None and b_['stmts'][0]['k'] == 'Expr': b_ = b_['stmts'][0]['expr']
+                        else: break
+                    return b_['k'] in ('Break', 'Return', 'Continue')
+                if leaves_(e.get('else')): val.clear(); val.update(v1); return          # `while c { .. }` = loop { if c { .. } else { break } }: what flows on is the body
+                if leaves_(e['then']): val.clear(); val.update(v2); return
                 merge(val, condkey(e['cond']), v1, v2); return
+            if e['k'] == 'Match' and e.get('source') in (None, 'Normal') and strip(e['scrutinee'])['k'] == 'Field' and strip(e['scrutinee']).get('field_name') == 'retain_choices' \
+                    and root_var(strip(e['scrutinee'])['lhs']) is not None:
+                # `match args.retain_choices { Any => {}, kept @ (True | False) => { r = retain(r, kept) } }`: the test `is Any` as a match
+                def variants_of(p_):
+                    p_ = unwrap_pat(p_)
+                    if p_['k'] == 'Or': return set().union(*[variants_of(q_) for q_ in p_['pats']])
+                    if p_['k'] == 'Binding' and p_.get('sub'): return variants_of(p_['sub'])
+                    if p_['k'] in ('Wild', 'Binding'): return {'True', 'False', 'Any'}
+                    if p_['k'] == 'Variant' and canon(p_.get('adt', '')) == TTE: return {p_['variant']}
+                    return set()
+                taken = set(); per = {}
+                for a_ in e['arms']:
+                    vs_ = variants_of(a_['pat']) - taken
+                    taken |= vs_
+                    if a_.get('guard') is not None or not vs_: continue
+                    v1 = dict(val); run_expr(a_['body'], v1)
+                    for x_ in vs_: per[x_] = v1
+                if set(per) == {'True', 'False', 'Any'} and all(per['True'].get(k_) == per['False'].get(k_) for k_ in set(per['True']) | set(per['False'])):
+                    merge(val, ('retain is any', False), per['Any'], per['True']); return
             if e['k'] == 'Match':
                 note(e['scrutinee'], val)
                 outs = []
@@ -1090,6 +1314,32 @@ def rule_X4(F, R, clauses=('parse', 'order', 'model', 'retain', 'export', 'vars'
                     some_arms = [a for a in arms if any(x['k'] == 'Adt' and x['variant'] == 'Some' for x in walk(a['body']))]
                     ok = len(some_arms) == 1 and unwrap_pat(some_arms[0]['pat']).get('variant') == 'Var'
         if t and not ok:
+            # `tokens.iter().filter_map(Token::as_var).unique().cloned().collect()`: the selector is a function (or closure) that returns
+            # Some(payload) for a Var token and None for everything else; unique() before or after cloning
+            fm = [e for e in walk(t['body']) if e['k'] == 'Call' and callee_decl(e) == 'std::iter::Iterator::filter_map' and len(e['args']) == 2]
+            uq = [e for e in walk(t['body']) if e['k'] == 'Call' and callee_name(e) == 'itertools::Itertools::unique']
+            other = [e for e in walk(t['body']) if e['k'] == 'Call' and (callee_name(e) or '').split('::')[-1] in ('filter', 'skip', 'take', 'rev', 'step_by', 'dedup', 'sorted', 'skip_while', 'take_while', 'unique_by', 'dedup_by')]
+            if len(fm) == 1 and len(uq) == 1 and not other:
+                sel = strip(fm[0]['args'][1])
+                st_ = None
+                if sel['k'] == 'Closure': st_ = lib.ithir.get(canon(sel['def']))
+                elif sel['k'] == 'ZstLiteral' and 'fn' in sel: st_ = lib.ithir.get(canon(sel['fn'].get('res') or sel['fn']['def']))
+                if st_ is not None:
+                    somes = [x for x in walk(st_['body']) if x['k'] == 'Adt' and canon(x['adt']) == 'std::option::Option' and x['variant'] == 'Some']
+                    varbinds = set()
+                    def pv(q_):
+                        q_ = unwrap_pat(q_)
+                        if q_['k'] == 'Variant' and q_.get('variant') == 'Var' and 'SymbolicBDDToken' in canon(q_.get('adt', '')) and q_.get('subs'):
+                            b__ = unwrap_pat(q_['subs'][0]['pat'])
+                            if b__['k'] == 'Binding': varbinds.add(b__['var'])
+                        for sp_ in q_.get('subs') or []: pv(sp_['pat'])
+                        for sp_ in q_.get('pats') or []: pv(sp_)
+                    for x in walk(st_['body']):
+                        if x['k'] == 'Match':
+                            for a_ in x['arms']: pv(a_['pat'])
+                        if x['k'] == 'If' and x['cond']['k'] == 'Let': pv(x['cond']['pat'])
+                    ok = len(somes) == 1 and len(varbinds) == 1 and root_var(somes[0]['fields'][0]['expr']) in varbinds
+        if t and not ok:
             # the same as a loop: for token in tokens { if let Var(v) = token { if seen.insert(v) { out.push(v.clone()) } } }  -> out
             import engine_l as _el
             loops = _el.for_loops(t['body'])
@@ -1148,6 +1398,8 @@ def rule_X4(F, R, clauses=('parse', 'order', 'model', 'retain', 'export', 'vars'
                     vf = calls_in(e['cond'], PF + 'var_is_free')[0]
                     whole = strip(vf['args'][1]).get('field_name') == 'bdd'
                     ok = len(pushes) == 1 and not opush and whole and root_var(pushes[0]['args'][1]) == root_var(vf['args'][2])
+        if t and not ok:
+            ok = free_vars_by_chain(lib, t, PF)
         R.count('X4:free_vars-fill'); R.obligation(ok, 'X4 free_vars')
         if not ok: R.violation(PF + 'new_with_env / X4 / free_vars', 'X4', 'free_vars must receive exactly the variables v of vars for which var_is_free(whole formula, v) holds')
 
@@ -1168,13 +1420,21 @@ def rule_X5(F, R):
     INT = ('usize', 'u64', 'u32', 'isize', 'i64', 'i32')
     # roles
     assigned = set(root_var(x['lhs']) for x in walk(t['body']) if x['k'] in ('Assign', 'AssignOp'))
-    ctrs = []
+    ctrs = []; fold_init = {}; collected = {}
     for blk in walk(t['body']):
         if blk['k'] != 'Block': continue
         for st in blk['stmts']:
             if st['k'] == 'Let' and st.get('init') is not None:
                 q = unwrap_pat(st['pat']); i0 = strip(st['init'])
                 if q['k'] == 'Binding' and q.get('mutable') and i0['k'] == 'Literal' and str(i0.get('value')) == '0' and q['var'] in assigned and st['init']['ty'].get('s') in INT: ctrs.append(q['var'])
+                # `let mut counter = listed.iter().fold(0, |c, var| ..)`: the counter starts from a pass over the given ordering
+                if q['k'] == 'Binding' and q.get('mutable') and i0['k'] == 'Call' and callee_decl(i0) == 'std::iter::Iterator::fold' and len(i0['args']) == 3 and st['init']['ty'].get('s') in INT \
+                        and strip(i0['args'][1])['k'] == 'Literal' and str(strip(i0['args'][1]).get('value')) == '0':
+                    ctrs.append(q['var']); fold_init[q['var']] = i0
+                # `let mut table: HashMap<_, _> = listed.iter().map(|var| (name, var.id)).collect()`
+                if q['k'] == 'Binding' and i0['k'] == 'Call' and callee_decl(i0) == 'std::iter::Iterator::collect' and 'Map' in (st['init']['ty'].get('s') or ''):
+                    mp_ = strip(i0['args'][0])
+                    if mp_['k'] == 'Call' and callee_decl(mp_) == 'std::iter::Iterator::map' and len(mp_['args']) == 2: collected[q['var']] = mp_
     def is_insert(x):
         return x['k'] == 'Call' and (callee_name(x) or '').endswith('Map::insert') and len(x['args']) == 3
     def entry_insert(x):
@@ -1197,7 +1457,8 @@ def rule_X5(F, R):
     inserts = [x for x in walk(t['body']) if (is_insert(x) and x['args'][2]['ty'].get('s') in INT) or int_valued(x)]
     def table_of(x):
         return root_var(x['args'][0]) if is_insert(x) else (root_var(entry_insert(x)[0]) if entry_insert(x) else None)
-    tables = set(table_of(x) for x in inserts) - {None}
+    tables = (set(table_of(x) for x in inserts) | set(collected)) - {None}
+    if len(tables) > 1 and len(set(table_of(x) for x in inserts) - {None}) == 1: tables = set(table_of(x) for x in inserts) - {None}
     if len(ctrs) != 1 or len(tables) != 1:
         R.violation(fn + ' / X5 / roles', 'UNDECIDABLE', 'cannot identify the fresh-id counter (%d candidates) and the name table (%d candidates) of the tokenizer' % (len(ctrs), len(tables))); return
     CTR = ctrs[0]; TBL = tables.pop()
@@ -1256,6 +1517,7 @@ def rule_X5(F, R):
                     q = unwrap_pat(st['pat'])
                     if st.get('init') is not None:
                         states = run(st['init'], states)
+                        if q['k'] == 'Binding': states = [(pc, dict(env, **{'#lets': dict(env.get('#lets', {}), **{q['var']: st['init']})}), ins) for (pc, env, ins) in states]
                         if q['k'] == 'Binding' and st['init']['ty'].get('s') in INT:
                             nxt = []
                             for (pc, env, ins) in states:
@@ -1332,6 +1594,22 @@ def rule_X5(F, R):
                 for (pc, env, ins, (c_, v_)) in sub:
                     nxt.append((And(pc, c_), env, ins + [(v_, True, e['loc'])]))
                 return nxt
+            cn_ = callee_name(e) or ''
+            if cn_ in ('std::option::Option::unwrap_or_else', 'std::option::Option::or_else', 'std::option::Option::map_or_else') and e['args'] and closure_of(e['args'][1]) is not None:
+                # `known.unwrap_or_else(|| { register a fresh id })`: nothing for a known name, the closure for an unknown one
+                ct_ = closure_of(e['args'][1])
+                def looks(x_, env_, depth=0):
+                    x_ = strip(x_)
+                    if any(y['k'] == 'Call' and (callee_name(y) or '').split('::')[-1] in ('get', 'get_mut', 'contains_key', 'get_key_value') and y['args'] and root_var(y['args'][0]) == TBL for y in walk(x_)): return True
+                    return any(y['k'] in ('VarRef', 'UpvarRef') and y['var'] in env_.get('#lets', {}) and depth < 4 and looks(env_['#lets'][y['var']], env_, depth + 1) for y in walk(x_))
+                states = run(e['args'][0], states)
+                nxt = list(states)
+                for (pc, env, ins) in states:
+                    e2 = dict(env); e2['#looked'] = env.get('#looked') or looks(e['args'][0], env)
+                    b_ = ct_['body']
+                    while b_['k'] in ('Use', 'NeverToAny'): b_ = b_['source']
+                    nxt += run(b_, [(pc, e2, ins)])
+                return nxt
             for arg in e['args']: states = run(arg, states)
             if is_insert(e) and root_var(e['args'][0]) == TBL:
                 nxt = []
@@ -1352,8 +1630,23 @@ def rule_X5(F, R):
             # run() rebinds lets inside the block's own env, which it returns: evaluate the tail in that env
             for (pc, env, ins) in run_keep(marker, [st0]):
                 if b_.get('expr') is None: raise Undec('closure without a value')
-                for st1 in run(b_['expr'], [(pc, env, ins)]):
-                    for alt in ev(b_['expr'], st1[1]): out.append((st1[0], st1[1], st1[2], alt))
+                out += value_paths(b_['expr'], (pc, env, ins))
+        return out
+    def value_paths(e, st):
+        """(pc, env, ins, (constraint, value)) for an expression used as a value: `if c { a } else { b }` forks on c"""
+        while e['k'] in ('Use', 'NeverToAny'): e = e['source']
+        if e['k'] == 'Block':
+            return run_block_value(e, [st])
+        if e['k'] == 'If' and e['cond']['k'] != 'Let' and e.get('else') is not None:
+            out = []
+            (pc, env, ins) = st
+            for (tc, fc) in cond(e['cond'], env):
+                out += value_paths(e['then'], (And(pc, tc), dict(env), ins))
+                out += value_paths(e['else'], (And(pc, fc), dict(env), ins))
+            return out
+        out = []
+        for st1 in run(e, [st]):
+            for alt in ev(e, st1[1]): out.append((st1[0], st1[1], st1[2], alt))
         return out
     def run_keep(blk, states):
         return run(blk, states)
@@ -1361,11 +1654,51 @@ def rule_X5(F, R):
     steps = []
     for (it, pat, body) in __import__('engine_l').for_loops(t['body']):
         registers = lambda y: (is_insert(y) or entry_insert(y) is not None) and table_of(y) == TBL
-        has = [x for x in walk(body) if x['k'] == 'Call' and registers(x)]
+        def with_closures(bd, seen=None):
+            seen = seen if seen is not None else set()
+            for y in walk(bd):
+                yield y
+                if y['k'] == 'Closure' and canon(y['def']) in lib.ithir and canon(y['def']) not in seen:
+                    seen.add(canon(y['def']))
+                    for z in with_closures(lib.ithir[canon(y['def'])]['body'], seen): yield z
+        has = [x for x in with_closures(body) if x['k'] == 'Call' and registers(x)]
         inner = any(any(y['k'] == 'Call' and registers(y) for y in walk(b2)) for (_i, _p, b2) in __import__('engine_l').for_loops(body))
         if has and not inner: steps.append(body)
     n = 0
     kinds_seen = set()
+    if CTR in fold_init and TBL in collected:
+        # the given ordering registered by two passes over the same list: the table collects (name, id) of every element, the counter is
+        # folded over the same elements; one fold step is one registration step: c' >= c and c' >= id + 1
+        fi = fold_init[CTR]; mp_ = collected[TBL]
+        def src_of(it):
+            it = strip(it)
+            while it['k'] == 'Call' and it['args'] and (callee_name(it) or '').split('::')[-1] in ('iter', 'into_iter', 'deref', 'as_slice', 'as_ref', 'clone'): it = strip(it['args'][0])
+            return it.get('var') if it['k'] in ('VarRef', 'UpvarRef') else None
+        same_src = src_of(fi['args'][0]) is not None and src_of(fi['args'][0]) == src_of(mp_['args'][0])
+        cf = closure_of(fi['args'][2]); cm = closure_of(mp_['args'][1])
+        okp = False; whyp = 'the table and the counter are not built from the same list'
+        if same_src and cf is not None and cm is not None and len(cf['params']) == 3 and len(cm['params']) == 2:
+            cvar = unwrap_pat(cf['params'][1]['pat']).get('var'); evar = unwrap_pat(cf['params'][2]['pat']).get('var')
+            mb = cm['body']
+            while mb['k'] in ('Use', 'NeverToAny') or (mb['k'] == 'Block' and not mb['stmts'] and mb['expr'] is not None): mb = mb['source'] if mb['k'] != 'Block' else mb['expr']
+            mvar = unwrap_pat(cm['params'][1]['pat']).get('var')
+            pair_ok = mb['k'] == 'Tuple' and len(mb['fields']) == 2 and strip(mb['fields'][1])['k'] == 'Field' and strip(mb['fields'][1]).get('field_name') == 'id' and root_var(strip(mb['fields'][1])['lhs']) == mvar
+            whyp = 'the collected pairs are not (name, id) of each listed variable'
+            if pair_ok and cvar and evar:
+                try:
+                    fb = cf['body']
+                    while fb['k'] in ('Use', 'NeverToAny'): fb = fb['source']
+                    paths = run_block_value(fb if fb['k'] == 'Block' else {'k': 'Block', 'stmts': [], 'expr': fb}, [(TRUE, {cvar: C0}, [])])
+                    idv = sym('f:%s.id' % evar)
+                    okp = bool(paths)
+                    for (pc, env, ins, (c_, v_)) in paths:
+                        cex, _ = find_counterexample([And(pc, c_)], And(('le0', idv + 1 - v_), ('le0', C0 - v_)))
+                        if cex is not None: okp = False; whyp = 'a fold step leaves the counter at %r for an element with id %r (counter before: `counter`)' % (v_, idv)
+                except Undec as u:
+                    okp = False; whyp = 'cannot follow the fold: %s' % u
+        n += 1; kinds_seen.add('given')
+        R.count('X5:id-registration-sites'); R.obligation(okp, 'X5 preload fold')
+        if not okp: R.violation(fn + ' / X5 / preloaded ordering', 'X5', 'the given ordering must register every listed variable with its id and leave the counter above every listed id: %s' % whyp, fi.get('loc'))
     for body in steps:
         try:
             paths = run(body, [(TRUE, {CTR: C0}, [])])
@@ -1401,6 +1734,8 @@ def rule_X5(F, R):
             en = entry_insert(x) if x['k'] == 'Call' else None
             if en is not None and en[1] == 'or_insert_with' and closure_of(en[2]) is not None:
                 step_ids |= set(id(y) for y in walk(closure_of(en[2])['body']))
+            if x['k'] == 'Call' and (callee_name(x) or '') in ('std::option::Option::unwrap_or_else', 'std::option::Option::or_else', 'std::option::Option::map_or_else') and len(x['args']) >= 2 and closure_of(x['args'][1]) is not None:
+                step_ids |= set(id(y) for y in walk(closure_of(x['args'][1])['body']))
     bodies = [t['body']] + [ct_['body'] for nm_, ct_ in sorted(lib.ithir.items()) if nm_.startswith(fn + '::{closure')]
     writes = [x for bd in bodies for x in walk(bd) if x['k'] in ('Assign', 'AssignOp') and root_var(x['lhs']) == CTR]
     stray = [x for x in writes if id(x) not in step_ids]
@@ -1597,18 +1932,36 @@ def rule_X6(F, R, parts=('coverage', 'labels')):
                             l_ = strip(l_); cv = root_var(c_)
                             if l_['k'] == 'Literal' and l_.get('lit') == 'Str' and cv: pairs.append((l_['value'], cv))
                         if len(pairs) == len(arr['fields']) and any(is_edge_push(x) for x in walk(fm)):
-                            for l_, cv in pairs: got[l_] = {cv}
+                            # the label of the pushed edge: the table's text itself (`label.to_string()`), or a format with the text in one of its holes
+                            # (`format!("{side}{{{j}}}")` in a nested loop over the list): rendered with the table's text filled in
+                            labvar = None
+                            for m_ in walk(fm['arms'][0]['body']):
+                                if m_['k'] == 'Match' and m_.get('source') == 'ForLoopDesugar':
+                                    for a_ in m_['arms']:
+                                        p_ = unwrap_pat(a_['pat'])
+                                        if p_['k'] == 'Variant' and p_['variant'] == 'Some' and p_['subs']:
+                                            tp_ = unwrap_pat(p_['subs'][0]['pat'])
+                                            if tp_['k'] == 'Leaf' and tp_.get('subs'):
+                                                for sp_ in tp_['subs']:
+                                                    if sp_['field'] == 0 and unwrap_pat(sp_['pat'])['k'] == 'Binding': labvar = unwrap_pat(sp_['pat'])['var']
+                                    break
+                            pushes_ = [x for x in walk(fm) if is_edge_push(x)]
+                            tup_ = [x for x in walk(pushes_[0]) if x['k'] == 'Tuple' and len(x['fields']) == 3] if len(pushes_) == 1 else []
+                            for l_, cv in pairs:
+                                text = l_
+                                if tup_ and labvar is not None and any(x['k'] == 'Literal' and x.get('lit') == 'ByteStr' for x in walk(tup_[0]['fields'][1])):
+                                    import engine_n as _en
+                                    try: text = ''.join(txt for _, txt in _en.rendered_texts(tup_[0]['fields'][1], (), {labvar: l_}))
+                                    except Exception: text = '?'
+                                got[text] = {cv}
                             for x in walk(fm): in_table_loop.add(id(x))
             for e in walk(a['body']):
                 if not is_edge_push(e) or id(e) in in_table_loop: continue
                 tup = [x for x in walk(e) if x['k'] == 'Tuple' and len(x['fields']) == 3]
                 if not tup: continue
-                lit = ''
-                for x in walk(tup[0]['fields'][1]):
-                    if x['k'] == 'Literal' and x.get('lit') == 'Str': lit += x['value']
-                    if x['k'] == 'Literal' and x.get('lit') == 'ByteStr':
-                        try: lit += _eu.decode_template(x['value'])
-                        except Exception: lit += '?'
+                import engine_n as _en
+                try: lit = ''.join(txt for _, txt in _en.rendered_texts(tup[0]['fields'][1]))          # format holes with a literal argument filled in (`{side}{{{j}}}` with side = "L" is `L{j}`)
+                except Exception: lit = '?'
                 child = set()
                 for x in walk(tup[0]['fields'][2]):
                     if x['k'] == 'Closure':
@@ -1683,15 +2036,48 @@ def rule_X7(F, R):
             if not ok:
                 R.violation('%s / X7 / label built with %s' % (base, kind), 'X7', 'labels must be plain text that the dot writer escapes (LabelText::label / LabelStr); `%s` writes backslashes and markup of a variable name through to the file' % kind, e['loc'])
     if n < 4: R.violation('rsbdd exporters / X7 / VACUITY', 'VACUITY', 'expected label constructors in four Labeller functions, found %d' % n)
+    # (a') the identity of a test node in the exported diagram is the address of the shared node (one node, one id; two nodes, two ids):
+    # a content hash is not injective, a label or variable name is shared by many nodes
+    nid = [k for k in lib.ithir if k.endswith('Labeller>::node_id') and 'BDDGraph' in k]
+    if nid:
+        t = lib.ithir[nid[0]]
+        pn = unwrap_pat(t['params'][1]['pat']).get('var') if len(t['params']) > 1 and 'pat' in t['params'][1] else None
+        fmts = [e for e in walk(t['body']) if e['k'] == 'Call' and (callee_name(e) or '').endswith('dot::Id::new') and any(x['k'] == 'Literal' and x.get('lit') == 'ByteStr' for x in walk(e))]
+        ok = len(fmts) == 1
+        why = 'expected one formatted id (for test nodes), found %d' % len(fmts)
+        if ok:
+            ptr = [x for x in walk(fmts[0]) if x['k'] == 'Call' and (callee_name(x) or '').split('::')[-1] == 'new_pointer']
+            tup = [strip(st['init']) for b_ in walk(fmts[0]) if b_['k'] == 'Block' for st in b_['stmts'] if st['k'] == 'Let' and st.get('init') is not None and strip(st['init'])['k'] == 'Tuple']
+            def from_node(x):
+                x = strip(x)
+                while x['k'] == 'Call' and x['args'] and ((callee_name(x) or '') in ('std::rc::Rc::into_raw', 'std::rc::Rc::as_ptr') or (callee_decl(x) or '') in ('std::clone::Clone::clone', 'std::ops::Deref::deref', 'std::convert::AsRef::as_ref')):
+                    x = strip(x['args'][0])
+                return x['k'] in ('VarRef', 'UpvarRef') and x['var'] == pn
+            ok = len(ptr) >= 1 and bool(tup) and any(from_node(f) for f in tup[0]['fields']) and all(from_node(f) for f in tup[0]['fields'] )
+            why = 'the id of a test node must be made from the address of the node itself (`{:p}` of the shared Rc), nothing else'
+        R.count('X7:node-identity'); R.obligation(ok, 'X7 node identity')
+        if not ok: R.violation('rsbdd::bdd_io::BDDGraph / X7 / node identity', 'X7', why, t['span']['loc'] if 'span' in t else None)
     # (b) de-duplication
     for fn, what in (('rsbdd::bdd_io::BDDGraph::nodes_recursive', 'node list of the diagram'), ('rsbdd::bdd_io::BDDGraph::edges_recursive', 'edge list of the diagram'),
                      ('rsbdd::parser_io::SymbolicParseTree::new', 'node list of the parse tree')):
         t = lib.ithir.get(fn)
+        if t is None and fn.endswith('BDDGraph::nodes_recursive'): _n2, t = dot_node_collector(lib)
         ok = False
         if t is not None:
             uniq = [e for e in walk(t['body']) if e['k'] == 'Call' and callee_name(e) in ('itertools::Itertools::unique', 'itertools::Itertools::unique_by', 'itertools::Itertools::dedup')]
             sets = [e for e in walk(t['body']) if e['k'] == 'Call' and (callee_name(e) or '').split('::')[-1] in ('collect',) and any(s_ in e['ty'].get('s', '') for s_ in ('HashSet', 'BTreeSet', 'IndexSet'))]
             ok = any(callee_name(e) == 'itertools::Itertools::unique' for e in uniq) or bool(sets)
+            if not ok:
+                # a walker that appends to a list it is given: every append sits under `if seen.insert(<the same node>)` on a set of nodes
+                pushes = [e for e in walk(t['body']) if e['k'] == 'Call' and callee_name(e) == 'std::vec::Vec::push']
+                guarded_ = 0
+                for i_ in walk(t['body']):
+                    if i_['k'] == 'If' and i_['cond']['k'] != 'Let':
+                        c_ = strip(i_['cond'])
+                        if c_['k'] == 'Call' and (callee_name(c_) or '').endswith('Set::insert') and len(c_['args']) == 2:
+                            for p_ in [x for x in walk(i_['then']) if x['k'] == 'Call' and callee_name(x) == 'std::vec::Vec::push']:
+                                if root_var(p_['args'][1]) is not None and root_var(p_['args'][1]) == root_var(c_['args'][1]): guarded_ += 1
+                ok = bool(pushes) and guarded_ == len(pushes)
         R.count('X7:deduplicated-lists'); R.obligation(ok, 'X7 unique ' + fn)
         if not ok: R.violation('%s / X7 / duplicates' % fn, 'X7', 'the %s must be de-duplicated (`.unique()`): a node shared by several parents is one node with one set of outgoing edges' % what)
     # (c') the label of a node shows its lists as they are: no adaptor that drops, repeats or reorders members
@@ -1752,12 +2138,42 @@ def rule_references(F, R, which=('eval_recursive', 'replace_var', 'var_is_free')
             bodies = [a['body']] + [lib.ithir[canon(x['def'])]['body'] for x in walk(a['body']) if x['k'] == 'Closure' and canon(x['def']) in lib.ithir]
             look = [x for bd in bodies for x in walk(bd) if x['k'] == 'Call' and callee_name(x) == PFm + 'get_definition' and root_var(x['args'][1]) == namevar]
             syn = set()
+            def find_syntax(q_):
+                q_ = unwrap_pat(q_)
+                if q_['k'] == 'Variant' and q_.get('variant') == 'Syntax' and q_.get('subs'): return q_
+                for sp_ in q_.get('subs') or []:
+                    r_ = find_syntax(sp_['pat'])
+                    if r_ is not None: return r_
+                return None
+            def recursions(scope, bvar):
+                return [x for x in walk(scope) if x['k'] == 'Call' and callee_name(x) == fn and root_var(x['args'][1]) == bvar and
+                        all(root_var(x['args'][i]) == params[i] for i in range(2, len(params))) and root_var(x['args'][0]) == params[0]]
+            for bd in bodies:
+                # `let Some(Syntax(s)) = self.get_definition(name) else { .. };` / `if let Some(Syntax(s)) = .. { .. }`: the payload is bound for the rest of the block / the then-branch
+                for blk in walk(bd):
+                    if blk['k'] == 'Block':
+                        for st in blk['stmts']:
+                            if st['k'] == 'Let' and st.get('init') is not None:
+                                q = find_syntax(st['pat'])
+                                b_ = unwrap_pat(q['subs'][0]['pat']) if q is not None else None
+                                if b_ is not None and b_['k'] == 'Binding' and recursions(blk, b_['var']): syn.add(b_['var'])
+                    if blk['k'] == 'If' and blk['cond']['k'] == 'Let':
+                        q = find_syntax(blk['cond']['pat'])
+                        b_ = unwrap_pat(q['subs'][0]['pat']) if q is not None else None
+                        if b_ is not None and b_['k'] == 'Binding' and recursions(blk['then'], b_['var']): syn.add(b_['var'])
             for bd in bodies:
                 for mm in walk(bd):
                     if mm['k'] == 'Match':
                         for aa in mm['arms']:
-                            q = unwrap_pat(aa['pat'])
-                            if q['k'] == 'Variant' and q.get('variant') == 'Syntax' and q['subs']:
+                            def find_syntax(q_):
+                                q_ = unwrap_pat(q_)
+                                if q_['k'] == 'Variant' and q_.get('variant') == 'Syntax' and q_.get('subs'): return q_
+                                for sp_ in q_.get('subs') or []:
+                                    r_ = find_syntax(sp_['pat'])
+                                    if r_ is not None: return r_
+                                return None
+                            q = find_syntax(aa['pat'])           # `Syntax(s)` or `Some(Syntax(s))`
+                            if q is not None:
                                 b_ = unwrap_pat(q['subs'][0]['pat'])
                                 if b_['k'] == 'Binding':
                                     for x in walk(aa['body']):
@@ -1945,6 +2361,34 @@ def rule_X8(F, R, crate_name, kind=None):
                                 'a file opened for writing with %s keeps the tail of an existing longer file: the result is not the emitted text alone' % '.'.join(reversed(names)), e['loc'])
     if n == 0:
         R.violation('%s / X8 / VACUITY' % crate_name, 'VACUITY', 'no output file creation found in %s' % crate_name)
+
+def rule_X8_flush(F, R, crate_name):
+    """what was written reaches the file, or the run fails: the buffered writer of main is flushed explicitly and the result of the flush
+    is propagated (a BufWriter dropped without flush swallows the write error of a full disk or a closed pipe and the run exits 0)"""
+    c = F.crate(crate_name)
+    t = c.ithir.get(crate_name + '::main') if c else None
+    if t is None:
+        R.violation('%s::main / X8 / anchor' % crate_name, 'UNDECIDABLE', 'main not found'); return
+    bufs = [e for e in walk(t['body']) if e['k'] == 'Call' and (callee_name(e) or '') in ('std::io::BufWriter::new', 'std::io::BufWriter::with_capacity', 'std::io::LineWriter::new')]
+    if not bufs:
+        R.count('X8:flushes'); R.obligation(True, 'X8 flush (unbuffered) ' + crate_name); return
+    tries = set()
+    for e in walk(t['body']):
+        if e['k'] == 'Call' and (callee_name(e) or '').endswith('Try>::branch') and e['args']:
+            for x in walk(e['args'][0]): tries.add(id(x))
+    tail = t['body']
+    while tail['k'] in ('Use', 'NeverToAny'): tail = tail['source']
+    tail_ids = set(id(x) for x in walk(tail['expr'])) if tail['k'] == 'Block' and tail.get('expr') is not None else set()
+    flushes = [e for e in walk(t['body']) if e['k'] == 'Call' and (callee_decl(e) or '') == 'std::io::Write::flush' and (id(e) in tries or id(e) in tail_ids)]
+    sts = stmts_in_order(t['body'])
+    def idx_of(pred):
+        return [i for i, st in enumerate(sts) if any(pred(x) for x in walk(st.get('init') if st['k'] == 'Let' else st.get('expr')) if (st.get('init') if st['k'] == 'Let' else st.get('expr')) is not None)]
+    fl_i = idx_of(lambda x: any(x is f for f in flushes))
+    wr_i = idx_of(lambda x: x['k'] == 'Call' and (callee_name(x) or '').endswith('write_fmt'))
+    ok = bool(flushes) and bool(fl_i) and (not wr_i or max(fl_i) >= max(wr_i))
+    R.count('X8:flushes', len(flushes)); R.obligation(ok, 'X8 flush ' + crate_name)
+    if not ok:
+        R.violation('%s::main / X8 / buffered output not flushed' % crate_name, 'X8', 'main writes through a BufWriter; after the last write it must call flush() and propagate its result (found %d propagated flush call(s))' % len(flushes), bufs[0].get('loc'))
 
 def rule_X8_after_input(F, R, crate_name, producers):
     """the output file is opened (and thereby emptied) only once everything that reads input or can refuse the request has run: a
